@@ -175,7 +175,7 @@ func lxSrc(tok string) (xs []int, fail error, ok bool) {
 	if i := strings.IndexByte(tok, '!'); i >= 0 {
 		body = tok[:i]
 		fail, ok = lxErrOf(tok[i+1:])
-		if !ok || fail == nil {
+		if !ok || fail == nil || fail == io.EOF { // a provider returning io.EOF is the END of the stream, not a failure
 			return nil, nil, false
 		}
 	}
